@@ -1,0 +1,74 @@
+//go:build verif
+
+package board
+
+import . "github.com/paulsonkoly/chess-3/chess"
+
+// Verification hooks (build tag verif). Add-only.
+
+// VerifSnap is a deep copy of every attribute of a Board.
+type VerifSnap struct {
+	SquaresToPiece [64]Piece
+	Pieces         [7]BitBoard
+	Colors         [2]BitBoard
+	Hashes         []Hash
+	FullMoves      int
+	STM            Color
+	EnPassant      Square
+	Castles        Castles
+	FiftyCnt       Depth
+}
+
+// VerifSnapshot returns a deep copy of b.
+func (b *Board) VerifSnapshot() VerifSnap {
+	return VerifSnap{
+		SquaresToPiece: b.SquaresToPiece,
+		Pieces:         b.Pieces,
+		Colors:         b.Colors,
+		Hashes:         append([]Hash(nil), b.hashes...),
+		FullMoves:      b.fullMoves,
+		STM:            b.STM,
+		EnPassant:      b.EnPassant,
+		Castles:        b.Castles,
+		FiftyCnt:       b.FiftyCnt,
+	}
+}
+
+// VerifRestore builds a Board from a snapshot (inverse of VerifSnapshot).
+func VerifRestore(s VerifSnap) *Board {
+	return &Board{
+		SquaresToPiece: s.SquaresToPiece,
+		Pieces:         s.Pieces,
+		Colors:         s.Colors,
+		hashes:         append(make([]Hash, 0, 128), s.Hashes...),
+		fullMoves:      s.FullMoves,
+		STM:            s.STM,
+		EnPassant:      s.EnPassant,
+		Castles:        s.Castles,
+		FiftyCnt:       s.FiftyCnt,
+	}
+}
+
+// VerifCalcHash exposes the from-scratch hash computation.
+func (b *Board) VerifCalcHash() Hash { return b.calculateHash() }
+
+// VerifHashes returns a copy of the hash history.
+func (b *Board) VerifHashes() []Hash { return append([]Hash(nil), b.hashes...) }
+
+// VerifFullMoves exposes the fullmove number.
+func (b *Board) VerifFullMoves() int { return b.fullMoves }
+
+// VerifZobrist exposes the Zobrist tables.
+func VerifZobrist() (pieces [2][7][64]Hash, stm Hash, castling [4]Hash, epFile [8]Hash) {
+	return piecesRand, stmRand, castlingRand, epFileRand
+}
+
+// VerifTokenLayout exposes the reverse-token field layout.
+func VerifTokenLayout() [8]uint64 {
+	return [8]uint64{
+		uint64(fiftyCntMask), fiftyCntShift,
+		uint64(castlingChangeMask), castlingChangeShift,
+		uint64(epChangeMask), epChangeShift,
+		uint64(captureMask), captureShift,
+	}
+}
